@@ -19,6 +19,7 @@ struct World {
     nodes: Vec<Node>,
     codec: CodecKind,
     k: usize,
+    victim_world: bool,
 }
 
 /// Build a reachable world: every knowledge state comes from real operations,
@@ -43,13 +44,26 @@ fn build(r: &mut Rng64) -> (World, String) {
             let _ = node.call(Op::ChangeId(Id::with(i as u16, g, pol)));
         }
     }
-    // mutual knowledge
+    // world family "victim": member 0 still knows everybody as Alive while most peers hold it as Down
+    // (the falsely-declared-down situation); otherwise fully random mutual knowledge
+    let victim_world = n >= 3 && r.chance(1, 3);
+    if victim_world {
+        desc.push_str("[victim world: 0 knows all Alive, peers mostly hold 0 Down] ");
+    }
     for i in 0..n {
         for j in 0..n {
             if i == j {
                 continue;
             }
-            let what = r.below(6);
+            let what = if victim_world {
+                if j == 0 {
+                    *r.pick(&[3u64, 3, 4, 1])
+                } else {
+                    1
+                }
+            } else {
+                r.below(6)
+            };
             if what == 0 {
                 desc.push_str(&format!("[{i} knows {j}: unknown] "));
                 continue;
@@ -68,7 +82,7 @@ fn build(r: &mut Rng64) -> (World, String) {
     }
     // own state
     for (i, node) in nodes.iter_mut().enumerate() {
-        match r.below(5) {
+        match if victim_world { 4 } else { r.below(5) } {
             0 => {
                 let _ = node.call(Op::Leave);
                 desc.push_str(&format!("[{i} left] "));
@@ -85,13 +99,21 @@ fn build(r: &mut Rng64) -> (World, String) {
         }
     }
     let k = cfg.k;
-    (World { nodes, codec, k }, desc)
+    (World { nodes, codec, k, victim_world }, desc)
 }
 
 fn initial_datagram(w: &World, r: &mut Rng64, kind: usize) -> (Id, Vec<u8>, String) {
     let n = w.nodes.len();
-    let a = r.usize(n);
-    let mut b = r.usize(n);
+    let (a, mut b) = if w.victim_world {
+        // somebody talks to the victim, or the victim talks to somebody
+        if r.chance(1, 2) {
+            (1 + r.usize(n - 1), 0)
+        } else {
+            (0, 1 + r.usize(n - 1))
+        }
+    } else {
+        (r.usize(n), r.usize(n))
+    };
     if b == a {
         b = (a + 1) % n;
     }
@@ -118,7 +140,7 @@ fn initial_datagram(w: &World, r: &mut Rng64, kind: usize) -> (Id, Vec<u8>, Stri
         Some(
             (0..cnt)
                 .map(|_| {
-                    let x = w.nodes[r.usize(n)].id();
+                    let x = if w.victim_world && r.chance(1, 2) { w.nodes[0].id() } else { w.nodes[r.usize(n)].id() };
                     Member::new(Id::new(x.addr, x.gen), 0, gen::state(r))
                 })
                 .collect(),
